@@ -153,7 +153,9 @@ def _tlc_trace(ck, events, ns, prop, bug, loose=False, printat=0, inv="", tag="v
     cfg = TRACE_CFG % dict(ns=ns, bug="TRUE" if bug else "FALSE", loose="TRUE" if loose else "FALSE", printat=printat,
                            prop=prop, inv=inv)
     name = "TraceEngine_run.cfg"
-    tp = os.path.join(ck.tmp, "tr_%s_%d.ndjson" % (tag, ck._n))
+    import threading
+    import uuid
+    tp = os.path.join(ck.tmp, "tr_%s_ns%d_%s_%s.ndjson" % (tag, ns, threading.get_ident(), uuid.uuid4().hex[:8]))
     vkit.write_ndjson(tp, events)
     r = ck.tlc_validate("TraceEngine", name, tp, files={name: cfg}, timeout=3000)
     m = re.search(r'<<"DEPTH", (\d+)>>', r.out)
